@@ -1,11 +1,7 @@
-(* C12 — FileSource (shutdown granularity): what is proved for all schedules.
-   Proved: exactly one thread performs the effective Shutdown and it is never blocked (closing);
-   no handler call begins once Run has returned; no handler call begins in a step taken while the
-   terminating channel is closed; after Shutdown every blocking point of run() has an escape:
-   run() is enabled, or it waits for the `blocks` channel of a file whose goroutine is itself enabled.
-   NOT proved (gap of c12_returns for the file source): the ranking argument over the unbounded list
-   of file goroutines, and the invariant "a file that was sent on fileStream gets its goroutine from
-   launchReader's very next step". *)
+(* C12 — FileSource (shutdown granularity): the Shutdown protocol (exactly one thread performs the
+   effective Shutdown and is never blocked), no handler call once Run has returned / while the
+   terminating channel is closed, and which blocking point has which escape.  The ranking argument
+   is in C12_FileLive.v. *)
 From BV Require Import Base.Prelude Model.Lifecycle Proofs.C12_Sched.
 Import Fs.
 
